@@ -194,7 +194,9 @@ def orderProbability (pct : List Rat) : List Nat → Rat → Rat
 def icm (payouts chips : List Rat) : List Rat :=
   let total := chips.foldl (· + ·) 0
   let pct := chips.map (· / total)
-  let orders := permsK payouts.length (List.range chips.length)
+  -- `permutations(range(len(chips)), min(len(payouts), len(chips)))`: with more paid places than players the
+  -- places nobody can reach are left out (since the F26 repair; before, there were no orders at all)
+  let orders := permsK (min payouts.length chips.length) (List.range chips.length)
   (List.range chips.length).map fun i =>
     (orders.map fun o =>
       let p := orderProbability pct o 1
